@@ -66,7 +66,7 @@ def cases(tier, rng):
         if cap:
             ops.append("cwire")
         ops.append("status")
-        out.append("p%d proxy %s %s%s / %s" % (k, pair[0], pair[1], " cap" if cap else "", " / ".join(ops)))
+        out.append("p%d proxy %s %s%s%s / %s" % (k, pair[0], pair[1], " cap" if cap else "", " prepoll" if rng.random() < 0.3 else "", " / ".join(ops)))
         k += 1
     # back-pressure on a connection the proxy forwards to (writer answers Pending / takes a few bytes per call): every
     # forwarded message still arrives whole
